@@ -35,7 +35,7 @@ ASSUMPTIONS = [
     "sdkconfig files carrying the kconfgen 'Deprecated options' compatibility block are not generated: _do_save never writes that "
     "block, so byte equality cannot hold for them by construction (kconfgen re-adds the block after menuconfig)",
     "quick tier: depth 4, jump-to only as the first action of a history, Load dialog offers {another tool-written file, the "
-    "session's own file}; thorough tier: depth 5, jump-to as first or second action, Load dialog additionally offers a "
+    "session's own file}; thorough tier: depth 5, jump-to among the first three actions, Load dialog additionally offers a "
     "hand-written fragment",
     "the conformance replay through textual.Pilot compares cur_menu, shown rows, list rows, highlighted row, sel_node_i, show_all, "
     "conf_changed, all values, needs_save(), top screen, exit status and file bytes after every key",
@@ -230,7 +230,7 @@ def items(tier: str, seed: int):
 
 def pairs(tier: str):
     depth = 4 if tier == "quick" else 5
-    jump_prefix = 1 if tier == "quick" else 2
+    jump_prefix = 1 if tier == "quick" else 3
     loads = ["load_tool.cfg", "@conf"] if tier == "quick" else ["load_tool.cfg", "load_frag.cfg", "@conf"]
     out = []
     for t in trees():
